@@ -367,6 +367,67 @@ theorem rxso3Exp_blocks_all (eps : ℝ) (x : rxso3 ℝ) (h0 : 0 ≤ eps) (h1 : e
     Blocks4Within (RxSO3matrix (rxso3Exp eps x)).toMatrix4 (NormedSpace.exp (rxso3Gen x)) (Real.exp x.sigma * (eps ^ 4 / 8)) 0 :=
   rxso3_blocks4_all eps x h0 h1
 
+/-! ## 5c'. The translation block in the property's own terms: RELATIVE to the translation scale (pass 10)
+
+The property bounds the translation block "relative to the translation scale"; the correspondence check measures it against
+`sim3TransScale x = C(σ)·‖τ‖∞`, `C(σ) = (e^σ − 1)/σ` (`1` at `σ = 0`) being the eigenvalue of the coupling matrix along `φ`. -/
+
+/-- **sim3, every input**: the translation column of `matrix(Exp ξ)` is within `(90·eps + e^{2|σ|}·eps³)·C(σ)‖τ‖∞` of that of
+`exp(ξ^)` — a relative bound, uniform in `τ` and `φ` -/
+theorem sim3Exp_translation_relative (eps : ℝ) (x : sim3 ℝ) (h0 : 0 ≤ eps) (h1 : eps ≤ 1) (a : Fin 3) :
+    |(Sim3matrix (sim3Exp eps x)).toMatrix4 a.castSucc (Fin.last 3) - NormedSpace.exp (sim3Gen x) a.castSucc (Fin.last 3)|
+      ≤ (90 * eps + Real.exp (2 * |x.sigma|) * eps ^ 3) * sim3TransScale x :=
+  sim3_translation_relative eps x h0 h1 a
+
+/-- **the property's tolerance holds over the reals on its whole stated range**: for `eps ≤ 2⁻²³` (float32 and float64) and
+`|σ| ≤ 8`, the translation block is within `4·√eps` of the exact one relative to the translation scale — for every `τ`, every `φ`
+(any angle), every regime.  (What the float code adds on top is the measured `γt`, `γMt` of `rounded_sim3Exp`.) -/
+theorem sim3Exp_translation_sqrt_eps (eps : ℝ) (x : sim3 ℝ) (h0 : 0 ≤ eps) (he : eps ≤ 1 / 2 ^ 23) (hσ : |x.sigma| ≤ 8) (a : Fin 3) :
+    |(Sim3matrix (sim3Exp eps x)).toMatrix4 a.castSucc (Fin.last 3) - NormedSpace.exp (sim3Gen x) a.castSucc (Fin.last 3)|
+      ≤ 4 * Real.sqrt eps * sim3TransScale x := by
+  have h1 : eps ≤ 1 := le_trans he (by norm_num)
+  refine le_trans (sim3_translation_relative eps x h0 h1 a) ?_
+  have hsc : 0 ≤ sim3TransScale x := by
+    unfold sim3TransScale
+    exact mul_nonneg (le_trans (Real.exp_pos _).le (sim3C_lower _)) (le_trans (abs_nonneg _) (le_max_left _ _))
+  apply mul_le_mul_of_nonneg_right _ hsc
+  -- e^{2|σ|} ≤ e^16 = (e^1)^16 ≤ 3^16
+  have hE : Real.exp (2 * |x.sigma|) ≤ 3 ^ 16 := by
+    have h16 : Real.exp (2 * |x.sigma|) ≤ Real.exp (((16 : ℕ) : ℝ) * 1) := Real.exp_le_exp.mpr (by push_cast; linarith)
+    rw [Real.exp_nat_mul] at h16
+    exact le_trans h16 (pow_le_pow_left₀ (Real.exp_pos 1).le Real.exp_one_lt_three.le 16)
+  set s := Real.sqrt eps with hs
+  have hs0 : 0 ≤ s := Real.sqrt_nonneg _
+  have hsq : s ^ 2 = eps := Real.sq_sqrt h0
+  have hsle : s ≤ 1 / 2048 := by
+    by_contra hc
+    push_neg at hc
+    have : (1 / 2048 : ℝ) ^ 2 < s ^ 2 := by nlinarith
+    rw [hsq] at this
+    have : (1 / 2 ^ 23 : ℝ) < (1 / 2048) ^ 2 := by norm_num
+    linarith
+  have e3 : eps ^ 3 = s ^ 6 := by rw [← hsq]; ring
+  rw [e3, ← hsq]
+  have h5 : s ^ 5 ≤ (1 / 2048) ^ 5 := pow_le_pow_left₀ hs0 hsle 5
+  have h6 : s ^ 6 ≤ (1 / 2048) ^ 5 * s := by
+    have := mul_le_mul_of_nonneg_right h5 hs0
+    calc s ^ 6 = s ^ 5 * s := by ring
+      _ ≤ _ := this
+  have h6' : 0 ≤ s ^ 6 := by positivity
+  have hK : Real.exp (2 * |x.sigma|) * s ^ 6 ≤ 3 ^ 16 * ((1 / 2048) ^ 5 * s) := mul_le_mul hE h6 h6' (by norm_num)
+  have hq : 90 * s ^ 2 ≤ 90 * (1 / 2048) * s := by nlinarith
+  have hnum : (3 : ℝ) ^ 16 * (1 / 2048) ^ 5 ≤ 1 := by norm_num
+  nlinarith
+
+/-- **se3, every input**: translation column within `(3/8)·eps³·‖τ‖∞` of that of `exp(ξ^)` (the scale is `‖τ‖∞`, `C = 1`) -/
+theorem se3Exp_translation_relative (eps : ℝ) (x : se3 ℝ) (h0 : 0 ≤ eps) (h1 : eps ≤ 1) (a : Fin 3) :
+    |(SE3matrix (se3Exp eps x)).toMatrix4 a.castSucc (Fin.last 3) - NormedSpace.exp (se3Gen x) a.castSucc (Fin.last 3)|
+      ≤ 3 / 8 * eps ^ 3 * max |x.tau.x| (max |x.tau.y| |x.tau.z|) := by
+  refine le_trans ((se3_blocks4_all eps x h0 h1).2.1 a) ?_
+  have := tau_one_le_three_inf x.tau
+  have he3 : 0 ≤ eps ^ 3 := by positivity
+  nlinarith
+
 /-! ## 5d. Rounded arithmetic (pass 3, block-wise since pass 4)
 
 The float code stores `q̃ ≈ q`, `s̃ ≈ s`, `t̃ ≈ t` and `matrix()` adds its own rounding.  Hypotheses: the distances of the
@@ -390,6 +451,22 @@ theorem rounded_so3Exp (eps γq γM : ℝ) (h0 : 0 ≤ eps) (h1 : eps ≤ 1) (hq
   rw [e]
   have := so3Exp_matrix_all eps x h0 h1 i j
   exact le_trans (abs_add_three _ _ _) (by linarith [hM i j, hR i j])
+
+/-- **unit norm of the stored quaternion** (the quantity the check measures is `‖q̃‖`, not `‖q̃‖²`): `|‖q̃‖ − 1| ≤ 16γq + eps⁶`
+for every input, whenever the stored quaternion is within `γq ≤ 1` (componentwise, up to the overall sign) of the model's -/
+theorem rounded_so3Exp_norm (eps γq : ℝ) (h0 : 0 ≤ eps) (h1 : eps ≤ 1) (hq1 : γq ≤ 1) (x : Vec3 ℝ) (p : Quat ℝ)
+    (hq : QuatNear γq p (so3Exp eps x) ∨ QuatNear γq p (so3Exp eps x).neg) :
+    |Real.sqrt p.normSq - 1| ≤ 16 * γq + eps ^ 6 := by
+  obtain ⟨hn, _⟩ := rounded_so3_core eps γq h0 h1 hq1 x p hq
+  have ha : 0 ≤ p.normSq := by unfold Quat.normSq; nlinarith [mul_self_nonneg p.x, mul_self_nonneg p.y, mul_self_nonneg p.z, mul_self_nonneg p.w]
+  have hs := Real.sqrt_nonneg p.normSq
+  have hsq : Real.sqrt p.normSq * Real.sqrt p.normSq = p.normSq := Real.mul_self_sqrt ha
+  -- |√a − 1| ≤ |√a − 1|(√a + 1) = |a − 1|
+  have key : |Real.sqrt p.normSq - 1| ≤ |p.normSq - 1| := by
+    have e : p.normSq - 1 = (Real.sqrt p.normSq - 1) * (Real.sqrt p.normSq + 1) := by linear_combination (-1 : ℝ) * hsq
+    rw [e, abs_mul, abs_of_pos (by linarith : 0 < Real.sqrt p.normSq + 1)]
+    nlinarith [abs_nonneg (Real.sqrt p.normSq - 1)]
+  linarith
 
 /-- **sim3 in rounded arithmetic, block-wise**: rotation/scale block within `e^σ·((1+γs)(γM + 16γq) + 3γs + eps⁴/8)` — every
 term relative to the scale `e^σ` —, translation column within `γMt + γt + (8eps + e^{|σ|}eps³/2)‖τ‖₁`, bottom row exact. -/
@@ -637,6 +714,17 @@ example : Blocks4Within (RxSO3matrix (rxso3Exp eps64 ⟨x0, 7 / 10⟩)).toMatrix
   rounded_rxso3Exp eps64 0 0 0 0 eps64_pos.le eps64_le_one (by norm_num) le_rfl le_rfl ⟨x0, 7 / 10⟩ (rxso3Exp eps64 ⟨x0, 7 / 10⟩) _
     (Or.inl ⟨by simp [rxso3Exp], by simp [rxso3Exp], by simp [rxso3Exp], by simp [rxso3Exp]⟩) (by simp [rxso3Exp])
     ⟨fun a b => by simp, fun a => by simp, fun j => rfl⟩
+
+
+-- pass 10: the relative translation bound at a concrete element (σ = −0.7: the scale C(σ) < 1), eps = 2⁻⁵²
+example (a : Fin 3) :
+    |(Sim3matrix (sim3Exp eps64 ⟨⟨1, 2, 3⟩, xtiny, -(7 / 10)⟩)).toMatrix4 a.castSucc (Fin.last 3)
+        - NormedSpace.exp (sim3Gen ⟨⟨1, 2, 3⟩, xtiny, -(7 / 10)⟩) a.castSucc (Fin.last 3)|
+      ≤ 4 * Real.sqrt eps64 * sim3TransScale ⟨⟨1, 2, 3⟩, xtiny, -(7 / 10)⟩ :=
+  sim3Exp_translation_sqrt_eps eps64 _ eps64_pos.le (by unfold eps64; norm_num) (by rw [abs_neg, abs_of_pos (by norm_num)]; norm_num) a
+
+example : |Real.sqrt (so3Exp eps64 x0).normSq - 1| ≤ 16 * 0 + eps64 ^ 6 :=
+  rounded_so3Exp_norm eps64 0 eps64_pos.le eps64_le_one (by norm_num) x0 (so3Exp eps64 x0) (Or.inl ⟨by simp, by simp, by simp, by simp⟩)
 
 end
 end PP
